@@ -390,8 +390,9 @@ namespace cds { namespace algo {
                 {
                     lock_guard l( m_Mutex );
                     f();
+                    // under the lock: wakeup_any() walks the publication list
+                    m_waitStrategy.wakeup( *this );
                 }
-                m_waitStrategy.wakeup( *this );
                 m_Stat.onInvokeExclusive();
             }
 
@@ -739,10 +740,9 @@ namespace cds { namespace algo {
                     if ( m_Mutex.try_lock()) {
                         if ( pRec->op( memory_model::memory_order_acquire ) == req_Response ) {
                             // Operation is done
-                            m_Mutex.unlock();
-
-                            // Wake up a pending threads
+                            // Wake up a pending threads (under the lock: wakeup_any() walks the publication list)
                             m_waitStrategy.wakeup( *this );
+                            m_Mutex.unlock();
                             m_Stat.onPassiveWaitWakeup();
 
                             break;
